@@ -38,7 +38,7 @@ impl Records {
         // add only records with complete data
         for r in list {
             let start_chunk = r*record_length/chunk_len;
-            let end_chunk = 1 + (r+1)*record_length/chunk_len;
+            let end_chunk = 1 + ((r+1)*record_length-1)/chunk_len; // chunk holding the last byte of the record
             let start_offset = r*record_length%chunk_len;
             let mut bytes: Vec<u8> = Vec::new();
             let mut complete = true;
@@ -49,6 +49,9 @@ impl Records {
                             bytes.push(*i);
                         }
                     },
+                    // only the data of a record is ever stored: a chunk that would hold the unused tail
+                    // of the record may not exist, and reads as zeros
+                    _ if chunk_num>start_chunk => bytes.append(&mut vec![0;chunk_len]),
                     _ => complete = false
                 }
             }
